@@ -406,9 +406,19 @@ impl std::fmt::Debug for UserErr {
         write!(f, "{}", self.token)
     }
 }
+/// What a user error prints. One function in five returns errors that print nothing at all (an
+/// error whose `Display` is empty is legal); the others print their token.
+pub fn user_shown(token: &str) -> String {
+    let id = token.strip_prefix("user#").and_then(|r| r.split_once(':')).and_then(|(n, _)| n.parse::<u32>().ok());
+    match id {
+        Some(n) if n % 5 == 0 => String::new(),
+        _ => token.to_string(),
+    }
+}
+
 impl std::fmt::Display for UserErr {
     fn fmt(&self, f: &mut std::fmt::Formatter<'_>) -> std::fmt::Result {
-        write!(f, "{}", self.token)
+        write!(f, "{}", user_shown(&self.token))
     }
 }
 /// user errors wrap a lower-level cause, as real ones do: what the error type is handed (and what
